@@ -7,8 +7,8 @@ LEVEL = 'other'
 EXPLANATION = ('LANG rules over the inlined MIR event graph of every source and every Observer impl: '
                'S1 each basic source delivers exactly its documented notification shape (of = next complete, never = nothing, ...); '
                'S2 error() forwards the error as the only downstream event (no item, aggregate or completion with it) and never swallows it; '
-               'S3 complete() delivers next* then exactly one complete; S5 is_finished answers true only for an empty slot or a finished downstream (otherwise a hot source skips the operator at its terminal); S6 the take_last/skip_last queues are first-in-first-out; S7 the take_last queue never holds more than `count` items after next(), for every count >= 0 (interval abstract interpretation of len - count); S8 the next() bodies of take, skip, skip_last, filter, take_while and skip_while agree with their definitions path by path (decision tables over the counter/bound difference, the predicate result and the mode flags; both directions); S9 distinct_until_(key_)changed replace their remembered item by the incoming one exactly when they forward it and never empty it; S4 next() never sends an error and completes downstream only in the '
-               'tabled early terminators. Decides the termination shape on every path and, for the six tabled counting/predicate operators, which items are forwarded; does not decide the values computed by user closures, accumulators, equality tests or the derived-operator compositions.')
+               'S3 complete() delivers next* then exactly one complete; S5 is_finished answers true only for an empty slot or a finished downstream (otherwise a hot source skips the operator at its terminal); S6 the take_last/skip_last queues are first-in-first-out; S7 the take_last queue never holds more than `count` items after next(), for every count >= 0 (interval abstract interpretation of len - count); S8 the next() bodies of take, skip, skip_last, filter, take_while and skip_while agree with their definitions path by path (decision tables over the counter/bound difference, the predicate result and the mode flags; both directions); S9 distinct_until_(key_)changed replace their remembered item by the incoming one exactly when they forward it and never empty it; S10 value-flow definitions by path-sensitive provenance dataflow: last remembers every item and emits the remembered one, scan applies f(acc, item) once, stores and emits the new acc, default_if_empty clears its flag on every item and emits the default iff it is still set, pairwise emits (previous, item) and refills the previous slot, collect adds every item and emits the collection, map/tap/filter_map/on_error_map apply the user function once to the incoming value and forward as defined, contains answers true exactly on equality and false at the end, distinct(_key) forwards iff the key is new and then records it, buffer_with_count releases and empties the buffer exactly when it holds count items (undecidable terms pass); S4 next() never sends an error and completes downstream only in the '
+               'tabled early terminators. Decides the termination shape on every path and, for the tabled operators, which items are forwarded and where each emitted value comes from; does not decide what user closures compute nor the arithmetic of the derived-operator compositions (min/max/average).')
 ASSUMPTIONS = ['value-level results of user closures, counters and predicates are not decided']
 TECHNIQUE = 'static analysis: regular-language inclusion of downstream event words over MIR event graphs (custom rustc_private driver)'
 
@@ -108,11 +108,14 @@ CONTROLS = [
     'S7|<verif_controls::RingLast<O, Item> as Observer>::next',
     'S8|<verif_controls::OffByOneTake<O> as Observer>::next',
     'S9|<verif_controls::ForgetfulDistinct<O, Item> as Observer>::next',
+    'S10|<verif_controls::FirstKeeper<O, Item> as Observer>::next',
+    'S10|<verif_controls::StaleScan<O, F, A> as Observer>::next',
+    'S10|<verif_controls::SwappedPairs<O, Item> as Observer>::next',
 ]
 
 
 def check(cx):
-    return s1(cx) + s234(cx) + s5(cx) + s6(cx) + s7(cx) + s8(cx) + s9(cx)
+    return s1(cx) + s234(cx) + s5(cx) + s6(cx) + s7(cx) + s8(cx) + s9(cx) + s10(cx)
 
 
 def _src_event(n):
@@ -495,4 +498,339 @@ def s9(cx):
         for t in MEMORY:
             if t not in seen:
                 res.append(Finding(ID, 'S9', 'table:' + t, False, 'operator not found (fail closed)'))
+    return res
+
+
+# ---- S10: value-flow definitions of the stateful single-input operators, decided by provenance dataflow (prov.py)
+def _s10_last(cx, im, P):
+    out = []
+    fn = cx.method(im, 'next')
+    sums, pred = P.summaries(cx.graph(fn['key']))
+    mem = None
+    bad = None
+    for sm, key in sums:
+        if sm['events']:
+            bad = 'last: next() must only remember the item, it emits or calls something'
+        stored = [(k[1:], v) for k, v in sm['store'].items() if k[0] == 'S']
+        hit = [k for k, v in stored if v == ('some', ('item', ()))]
+        if len(hit) != 1:
+            if all(P.decided(v) for k, v in stored):
+                bad = bad or 'last: a path of next() does not replace the remembered item by the incoming one (the operator would keep an older item)'
+        else:
+            mem = hit[0]
+    out.append((fn, bad, 'every path stores Some(item) into the memory'))
+    fn2 = cx.method(im, 'complete')
+    bad2 = None
+    if mem is not None:
+        sums2, _ = P.summaries(cx.graph(fn2['key']))
+        for sm, key in sums2:
+            ne = P.emits(sm, 'next')
+            c = P.cond_of(sm, lambda t: t == ('discr', ('old', mem)))
+            want = ('old', mem + ('as Some', '0'))
+            if c == 1 and (len(ne) != 1 or (P.decided(ne[0][2]) and ne[0][2] != want)):
+                bad2 = 'last: complete() must emit exactly the remembered item when there is one'
+            if c == 0 and ne:
+                bad2 = 'last: complete() emits an item although nothing was remembered'
+            if any(P.decided(e[2]) and e[2] != want for e in ne):
+                bad2 = 'last: complete() emits something other than the remembered item'
+    out.append((fn2, bad2, 'emits the remembered item iff there is one, then completes'))
+    return out
+
+
+def _s10_scan(cx, im, P):
+    fn = cx.method(im, 'next')
+    sums, pred = P.summaries(cx.graph(fn['key']))
+    bad = None
+    for sm, key in sums:
+        uc = sm['ucalls']
+        if len(uc) != 1:
+            bad = 'scan: the binary operator must be applied exactly once per item'
+            continue
+        callee, argv = uc[0]
+        if argv[0] != 'tuple' or len(argv[1]) != 2:
+            continue
+        a, b = argv[1]
+        if P.decided(b) and b != ('item', ()):
+            bad = 'scan: the second operand of the binary operator is not the incoming item'
+        if P.decided(a) and a[0] != 'old':
+            bad = 'scan: the first operand of the binary operator is not the stored accumulator'
+        if a[0] == 'old':
+            acc = a[1]
+            now = P.cur(sm, acc)
+            if P.decided(now) and now != ('ucall', 0):
+                bad = 'scan: the result of the binary operator is not stored back as the new accumulator'
+        ne = P.emits(sm, 'next')
+        if len(ne) != 1:
+            bad = 'scan: exactly one value must be emitted per item'
+        elif P.decided(ne[0][2]) and ne[0][2] != ('ucall', 0):
+            bad = 'scan: the emitted value is not the freshly computed accumulator (%s)' % P.show(ne[0][2])
+        ev = [e[0] for e in sm['events']]
+        if ev[:1] != ['ucall']:
+            bad = bad or 'scan: a value is emitted before the accumulator is updated'
+    return [(fn, bad, 'acc := f(acc, item); emits the new acc')]
+
+
+def _s10_default_if_empty(cx, im, P, tag):
+    F = cx.facts
+    bools = [f for f, t in roles.adt_fields(cx, tag) if F.tystr(t) == 'bool']
+    if len(bools) != 1:
+        from ..core import Incomplete
+        raise Incomplete('expected one bool field in %s' % tag)
+    B = (bools[0],)
+    out = []
+    fn = cx.method(im, 'next')
+    sums, _ = P.summaries(cx.graph(fn['key']))
+    bad = None
+    for sm, key in sums:
+        ne = P.emits(sm, 'next')
+        if len(ne) != 1 or (P.decided(ne[0][2]) and ne[0][2] != ('item', ())):
+            bad = 'default_if_empty: next() must forward exactly the incoming item'
+        now = P.cur(sm, B)
+        c = P.cond_of(sm, lambda t: t == ('old', B))
+        if not (now == ('const', 'false') or (now == ('old', B) and c == 0)) and P.decided(now):
+            bad = 'default_if_empty: a path of next() leaves the "still empty" flag set although an item was seen (the default would be emitted after real items)'
+    out.append((fn, bad, 'forwards the item and clears the empty flag'))
+    fn2 = cx.method(im, 'complete')
+    sums2, _ = P.summaries(cx.graph(fn2['key']))
+    bad2 = None
+    for sm, key in sums2:
+        ne = P.emits(sm, 'next')
+        c = P.cond_of(sm, lambda t: t == ('old', B))
+        if c is None:
+            bad2 = 'default_if_empty: complete() does not consult the "still empty" flag'
+        elif c == 1 and (len(ne) != 1 or (P.decided(ne[0][2]) and (ne[0][2][0] != 'old' or ne[0][2][1] == B))):
+            bad2 = 'default_if_empty: an empty stream must end with exactly the default value'
+        elif c == 0 and ne:
+            bad2 = 'default_if_empty: the default is emitted although items were seen'
+    out.append((fn2, bad2, 'emits the default iff no item was seen'))
+    return out
+
+
+def _s10_pairwise(cx, im, P):
+    fn = cx.method(im, 'next')
+    sums, _ = P.summaries(cx.graph(fn['key']))
+    bad = None
+    for sm, key in sums:
+        ne = P.emits(sm, 'next')
+        if len(ne) > 1:
+            bad = 'pairwise: more than one pair per item'
+        stored = [v for k, v in sm['store'].items() if k[0] == 'S']
+        if stored and all(P.decided(v) for v in stored) and not any(P.has_item(v) for v in stored):
+            bad = 'pairwise: a path of next() does not remember the incoming item as the next "previous"'
+        if ne:
+            v = ne[0][2]
+            if v[0] == 'tuple' and len(v[1]) == 2:
+                a, b = v[1]
+                if P.decided(b) and b != ('item', ()):
+                    bad = 'pairwise: the second component of the pair is not the incoming item'
+                if P.decided(a) and (a[0] != 'old' or P.has_item(a)):
+                    bad = 'pairwise: the first component of the pair is not the previously remembered item'
+                if a[0] == 'old' and 'as Some' in a[1]:
+                    prefix = a[1][:a[1].index('as Some')]
+                    now = P.cur(sm, prefix)
+                    if P.decided(now) and now != ('some', ('item', ())):
+                        bad = 'pairwise: the slot the "previous" item is read from is not refilled with the incoming item'
+                    c = P.cond_of(sm, lambda t: t == ('discr', ('old', prefix)))
+                    if c == 0:
+                        bad = 'pairwise: a pair is emitted although there is no previous item'
+        else:
+            c = [val for term, val in sm['conds'] if term[0] == 'discr' and term[1][0] == 'old']
+            if c and all(x == 1 for x in c):
+                bad = 'pairwise: no pair is emitted although a previous item exists'
+    return [(fn, bad, 'emits (previous, item) iff a previous item exists; remembers the item')]
+
+
+def _s10_collect(cx, im, P):
+    out = []
+    fn = cx.method(im, 'next')
+    sums, _ = P.summaries(cx.graph(fn['key']))
+    bad = None
+    coll = None
+    for sm, key in sums:
+        if P.emits(sm):
+            bad = 'collect: next() emits'
+        added = [(k[1:], v) for k, v in sm['store'].items() if k[0] == 'S' and v[0] == 'added']
+        if len(added) == 1 and added[0][1][1] == ('old', added[0][0]) and P.has_item(added[0][1][2]):
+            coll = added[0][0]
+        elif all(P.decided(v) for k, v in sm['store'].items() if k[0] == 'S'):
+            bad = 'collect: a path of next() does not add the incoming item to the collection'
+    out.append((fn, bad, 'adds the item to the collection'))
+    fn2 = cx.method(im, 'complete')
+    bad2 = None
+    if coll is not None:
+        sums2, _ = P.summaries(cx.graph(fn2['key']))
+        for sm, key in sums2:
+            ne = P.emits(sm, 'next')
+            if len(ne) != 1 or (P.decided(ne[0][2]) and ne[0][2] != ('old', coll)):
+                bad2 = 'collect: complete() must emit exactly the gathered collection'
+    out.append((fn2, bad2, 'emits the collection, then completes'))
+    return out
+
+
+def _s10_apply(kind):
+    """map / tap / filter_map / on_error_map: the user function is applied exactly once to the incoming value"""
+    def spec(cx, im, P):
+        meth = 'error' if kind == 'on_error_map' else 'next'
+        fn = cx.method(im, meth)
+        sums, _ = P.summaries(cx.graph(fn['key']))
+        bad = None
+        for sm, key in sums:
+            uc = sm['ucalls']
+            if len(uc) != 1:
+                bad = '%s: the user function must be applied exactly once per notification' % kind
+                continue
+            argv = uc[0][1]
+            if argv[0] == 'tuple' and len(argv[1]) == 1 and P.decided(argv[1][0]) and argv[1][0] != ('item', ()):
+                bad = '%s: the user function is not applied to the incoming value' % kind
+            ne = P.emits(sm, meth)
+            ev = [e[0] for e in sm['events']]
+            if kind in ('map', 'on_error_map'):
+                if len(ne) != 1 or (P.decided(ne[0][2]) and ne[0][2] != ('ucall', 0)):
+                    bad = '%s: the result of the user function must be forwarded, exactly once' % kind
+            elif kind == 'tap':
+                if len(ne) != 1 or (P.decided(ne[0][2]) and ne[0][2] != ('item', ())) or ev[:1] != ['ucall']:
+                    bad = 'tap: the callback must see the item first, then the unchanged item is forwarded exactly once'
+            elif kind == 'filter_map':
+                c = P.cond_of(sm, lambda t: t == ('discr', ('ucall', 0)))
+                if c == 1 and (len(ne) != 1 or (P.decided(ne[0][2]) and not P.mentions_v(ne[0][2], lambda x: x == ('ucall', 0)))):
+                    bad = 'filter_map: Some(v) must forward v'
+                if c == 0 and ne:
+                    bad = 'filter_map: None must forward nothing'
+                if c is None and ne:
+                    bad = 'filter_map: an item is forwarded without looking at the result of the user function'
+        return [(fn, bad, 'user function applied once to the incoming value; result handled as defined')]
+    return spec
+
+
+def _s10_contains(cx, im, P):
+    out = []
+    fn = cx.method(im, 'next')
+    sums, _ = P.summaries(cx.graph(fn['key']))
+    bad = None
+    is_cmp = lambda t: t[0] == 'cmp' and t[1] in ('Eq', 'Ne') and {t[2][0], t[3][0]} == {'old', 'item'}
+    for sm, key in sums:
+        c = None
+        for term, val in sm['conds']:
+            if is_cmp(term):
+                c = val if term[1] == 'Eq' else 1 - val
+        ne = P.emits(sm, 'next')
+        if c is None and sm['events']:
+            bad = 'contains: an answer is given without comparing the item with the target'
+        if c == 0 and sm['events']:
+            bad = 'contains: answers although the item differs from the target'
+        if c == 1:
+            slot_empty = any(term[0] == 'discr' and val == 0 for term, val in sm['conds'])
+            if not slot_empty and (len(ne) != 1 or ne[0][2] != ('const', 'true') or not P.emits(sm, 'complete')):
+                bad = 'contains: a matching item must be answered with `true` and completion'
+    out.append((fn, bad, 'answers true + complete exactly for an item equal to the target'))
+    fn2 = cx.method(im, 'complete')
+    sums2, _ = P.summaries(cx.graph(fn2['key']))
+    bad2 = None
+    for sm, key in sums2:
+        ne = P.emits(sm, 'next')
+        if ne and (len(ne) != 1 or ne[0][2] != ('const', 'false')):
+            bad2 = 'contains: a stream that ends without a match must be answered with `false`'
+    out.append((fn2, bad2, 'answers false when the stream ends without a match'))
+    return out
+
+
+def _s10_distinct(cx, im, P):
+    fn = cx.method(im, 'next')
+    sums, _ = P.summaries(cx.graph(fn['key']))
+    bad = None
+    for sm, key in sums:
+        ne = P.emits(sm, 'next')
+        key_ok = lambda k: k == ('item', ()) or (k[0] == 'ucall' and sm['ucalls'] and sm['ucalls'][k[1]][1] == ('tuple', (('item', ()),)))
+        member = None      # 1: already seen, 0: new
+        the_set = None
+        for term, val in sm['conds']:
+            if term[0] == 'contains' and term[1][0] == 'old' and key_ok(term[2]):
+                member, the_set, k = val, term[1][1], term[2]
+            elif term[0] == 'inserted' and term[1][0] == 'old' and key_ok(term[2]):
+                member, the_set, k = 1 - val, term[1][1], term[2]
+        if member is None:
+            if sm['events'] and any(e[0] == 'emit' for e in sm['events']):
+                bad = 'distinct: an item is forwarded without a membership test of its key in the seen-set'
+            continue
+        if member == 1 and ne:
+            bad = 'distinct: an item whose key was already seen is forwarded'
+        if member == 0:
+            if len(ne) != 1 or (P.decided(ne[0][2]) and ne[0][2] != ('item', ())):
+                bad = 'distinct: a new item must be forwarded exactly once, unchanged'
+            now = P.cur(sm, the_set)
+            if P.decided(now) and not (now[0] == 'added' and now[1] == ('old', the_set) and (now[2] == k or key_ok(now[2]))):
+                bad = 'distinct: the key of a forwarded item is not added to the seen-set (a later duplicate would pass)'
+    return [(fn, bad, 'forwards an item iff its key is new, and then records the key')]
+
+
+def _s10_buffer_count(cx, im, P):
+    fn = cx.method(im, 'next')
+    sums, _ = P.summaries(cx.graph(fn['key']))
+    bad = None
+    for sm, key in sums:
+        ne = P.emits(sm, 'next')
+        full = None
+        for term, val in sm['conds']:
+            if term[0] == 'op' and term[1] in ('Ge', 'Eq', 'Lt', 'Ne', 'Gt') and term[2][0] == 'pure' and term[2][1] == 'len' and len(term[2]) > 2 and term[2][2][0] == 'added' and P.has_item(term[2][2][2]) and term[3][0] == 'old':
+                full = val if term[1] in ('Ge', 'Eq') else (1 - val if term[1] in ('Lt', 'Ne') else None)
+                buf = term[2][2][1][1] if term[2][2][1][0] == 'old' else None
+        if full is None:
+            if ne:
+                bad = 'buffer_with_count: a buffer is released without comparing its length (after adding the item) with count'
+            continue
+        if full == 1 and len(ne) != 1:
+            bad = 'buffer_with_count: a full buffer must be released exactly once'
+        if full == 1 and ne and P.decided(ne[0][2]) and not (ne[0][2][0] == 'added' and P.has_item(ne[0][2][2])):
+            bad = 'buffer_with_count: the released buffer does not contain the item that filled it'
+        if full == 0 and ne:
+            bad = 'buffer_with_count: a buffer is released before it holds count items'
+        if buf is not None:
+            now = P.cur(sm, buf)
+            if full == 1 and P.decided(now) and now[0] == 'added':
+                bad = 'buffer_with_count: the released items stay in the buffer (they would be emitted again)'
+            if full == 0 and P.decided(now) and not (now[0] == 'added' and P.has_item(now[2])):
+                bad = 'buffer_with_count: the item is not kept in the buffer'
+    return [(fn, bad, 'adds the item; releases and empties the buffer exactly when it holds count items')]
+
+
+S10_TABLE = {
+    'ops::last::LastObserver': _s10_last,
+    'ops::scan::ScanObserver': _s10_scan,
+    'ops::default_if_empty::DefaultIfEmptyObserver': 'default_if_empty',
+    'ops::pairwise::PairwiseObserver': _s10_pairwise,
+    'ops::collect::CollectObserver': _s10_collect,
+    'ops::map::MapObserver': _s10_apply('map'),
+    'ops::tap::TapObserver': _s10_apply('tap'),
+    'ops::filter_map::FilterMapObserver': _s10_apply('filter_map'),
+    'ops::on_error_map::OnErrorMapObserver': _s10_apply('on_error_map'),
+    'ops::contains::ContainsObserver': _s10_contains,
+    'ops::distinct::DistinctObserver': _s10_distinct,
+    'ops::distinct::DistinctKeyObserver': _s10_distinct,
+    'ops::buffer::BufferWithCountObserver': _s10_buffer_count,
+}
+S10_CONTROL = {
+    'verif_controls::FirstKeeper': _s10_last,
+    'verif_controls::StaleScan': _s10_scan,
+    'verif_controls::SwappedPairs': _s10_pairwise,
+}
+
+
+def s10(cx):
+    from .. import prov as P
+    res = []
+    seen = set()
+    table = S10_CONTROL if cx.control else S10_TABLE
+    for im in cx.observer_impls():
+        tag = roles.impl_tag(cx, im)
+        spec = table.get(tag)
+        if spec is None:
+            continue
+        seen.add(tag)
+        rows = _s10_default_if_empty(cx, im, P, tag) if spec == 'default_if_empty' else spec(cx, im, P)
+        for fn, bad, good in rows:
+            res.append(Finding(ID, 'S10', cx.label(fn), not bad, bad or good, fn['span']))
+    if not cx.control:
+        for t in S10_TABLE:
+            if t not in seen:
+                res.append(Finding(ID, 'S10', 'table:' + t, False, 'operator not found (fail closed)'))
     return res
